@@ -1451,8 +1451,11 @@ impl<'a, 'ast> Visit<'ast> for Ed<'a> {
                 }
             }
             let body_src = self.src[bstart..bend].to_string();
+            // the copy of the body that serves as the specification: `.is_empty()` (an exec function of Vec / str / String /
+            // slices that Verus does not read in specifications) is spelled as the spec function of the same meaning
+            let spec_src = body_src.replace(".is_empty()", ".vx_spec_is_empty()");
             let end = c.span().byte_range().end;
-            self.push(start, end, format!("|{}| -> (vx_o: bool) ensures vx_o == ({{ {lets}{body_src} }}) {{ {lets}{body_src} }}", names.join(", ")), "E27-predicate-closure-specified-by-its-own-body", true);
+            self.push(start, end, format!("|{}| -> (vx_o: bool) ensures vx_o == ({{ {lets}{spec_src} }}) {{ {lets}{body_src} }}", names.join(", ")), "E27-predicate-closure-specified-by-its-own-body", true);
             self.auto_pred_headers += 1;
         } else {
             self.closures_unspecified += 1;
